@@ -330,7 +330,17 @@ def run_daemon(desc):
                 ap = desc['part'] % 4 >= 2
             # ---- one hostile message
             t = r.random()
-            if t < 0.35 and qa:
+            if i in (3, 4):
+                # not hostile at all: a valid UPDATE of exactly the negotiated maximum (65535 here), and one octet less, padded
+                # with an unknown optional transitive attribute.  It must go through
+                total = 65535 - (i - 3)
+                fixed = rw.enc_attr(0x40, 1, b'\x00') + rw.enc_attr(0x40, 2, bytes([2, 1]) + (struct.pack('!L', 65001) if asn4 else struct.pack('!H', 65001))) + rw.enc_attr(0x40, 3, bytes([192, 0, 2, 1]))
+                nl = (struct.pack('!L', 7) if ap else b'') + bytes([24, 10, 99, i])
+                pad = total - 19 - 4 - len(fixed) - len(nl) - 4
+                body = rw.enc_update_body(b'', fixed + rw.enc_attr(0xD0, 200, bytes(pad), force_ext=True), nl)
+                mtype, cls = 2, 'valid-at-maximum-size'
+                assert 19 + len(body) == total
+            elif t < 0.35 and qa:
                 m = r.choice(qa)
                 mtype, body = m['type'], gw.mutate(r, m['body'], r.choice([1, 1, 2, 3]))
                 cls = 'mutated-qa'
@@ -353,7 +363,7 @@ def run_daemon(desc):
                 cls = 'random'
             if mtype in (1, 3, 4):
                 continue  # an OPEN, a NOTIFICATION or a KEEPALIVE in ESTABLISHED are FSM matters (C05, C10)
-            if len(body) > 4096 - 19:
+            if len(body) > 4096 - 19 and cls != 'valid-at-maximum-size':
                 body = body[: 4096 - 19]
             wit = {'type': mtype, 'body': body.hex()[:4000], 'class': cls, 'asn4': asn4, 'level': 'daemon'}
             try:
@@ -387,7 +397,9 @@ def run_daemon(desc):
                 k = log.find('exception.unhandled')
                 res.violation(f'C03/daemon:unhandled-exception:{cls}', 'the daemon logged an unhandled exception: ' + log[max(0, k) : k + 300], dict(wit, log=log[-2500:]), 'daemon:' + cls)
                 return res
-            if outcome[0] == 'notification' and (outcome[1], outcome[2]) == (1, 0) and b'can not decode' in outcome[3]:
+            if cls == 'valid-at-maximum-size' and outcome[0] != 'continues':
+                res.violation('C03/daemon:valid-message-of-maximum-size-refused', f'a valid UPDATE of {19 + len(body)} octets (negotiated maximum 65535) ended the session: {outcome[:3]}', dict(wit, body=f'({len(body)} octets)'), 'daemon:' + cls)
+            elif outcome[0] == 'notification' and (outcome[1], outcome[2]) == (1, 0) and b'can not decode' in outcome[3]:
                 res.violation(f'C03/daemon:decoder-exception-escaped:type-{mtype}', f'NOTIFICATION 1/0 {outcome[3][:80]!r}: an exception other than Notify left Message.unpack', wit, 'daemon:' + cls)
             else:
                 res.ok('daemon:' + cls, ('daemon', cls, outcome[0], outcome[1:3] if outcome[0] == 'notification' else ()))
